@@ -951,7 +951,10 @@ def check_C05(chk, tier, seed):
     tdef = [d for d in eng.dicts["g"].live() if d["ty"] == "time" and d["vendor"] is None][0]
     gdef = [d for d in eng.dicts["g"].live() if d["ty"] == "grp" and d["vendor"] is None][0]
     for t, inr in [(-2208988801, False), (-2208988800, True), (2085978495, True), (2085978496, False), (2208988800, False),
-                   (-5000000000, False), (4102444800, False), (0, True), (-1, True)]:
+                   (-5000000000, False), (4102444800, False), (0, True), (-1, True),
+                   # instants chrono represents and an i64 of nanoseconds does not (before 1677-09-21, after 2262-04-11), and the ends of that window
+                   (9223372036, False), (9223372037, False), (-9223372036, False), (-9223372037, False), (-9223372038, False),
+                   (253402300799, False), (-62135596800, False), (4000000000000, False), (-4000000000000, False)]:
         for wrap in (0, 1, 2):
             v = ("L", ("time", t))
             e = ("E", tdef["code"], None, 0x40, v)
